@@ -233,8 +233,13 @@ func cmdVerify(args []string) int {
 	var wg sync.WaitGroup
 	sem := make(chan struct{}, *jobs)
 	want := map[*Obl]bool{}
+	var expRe *regexp.Regexp
+	if *expectFail != "" {
+		expRe = regexp.MustCompile(*expectFail)
+	}
 	for _, o := range res.obls {
-		want[o] = true
+		// selftest: only the obligations the expectation names are solved
+		want[o] = expRe == nil || expRe.MatchString(o.Name)
 	}
 	for _, vc := range res.vcs {
 		var mine []*Obl
@@ -278,7 +283,7 @@ func cmdVerify(args []string) int {
 		if o.Cover && o.Result.Status == "unsat" {
 			settled = false // a vacuous precondition is re-checked standalone before it is reported
 		}
-		if settled || o.Result.Backend == "trivial" {
+		if settled || o.Result.Backend == "trivial" || !want[o] {
 			continue
 		}
 		wg.Add(1)
